@@ -192,6 +192,19 @@ fn check_node_name(path: &Path, node: &Node) -> RusticResult<()> {
     }
 }
 
+/// Returns whether the given existing entry has more than one hard link.
+#[cfg(unix)]
+fn has_multiple_links(entry: &DirEntry) -> bool {
+    use std::os::unix::fs::MetadataExt;
+    entry.metadata().is_ok_and(|meta| meta.nlink() > 1)
+}
+
+/// Returns whether the given existing entry has more than one hard link.
+#[cfg(not(unix))]
+fn has_multiple_links(_entry: &DirEntry) -> bool {
+    false
+}
+
 pub(crate) fn collect_and_prepare<S: IndexedFull>(
     repo: &Repository<S>,
     opts: RestoreOptions,
@@ -374,7 +387,11 @@ pub(crate) fn collect_and_prepare<S: IndexedFull>(
                                     && !file_type.is_symlink()
                             }
                         };
-                        let exists = if same_type && !node.is_special() {
+                        // An existing file with several hard links must not be modified in place:
+                        // this would also change the other names of that file.
+                        let replace_hardlinked =
+                            node.is_file() && same_type && has_multiple_links(destination);
+                        let exists = if same_type && !node.is_special() && !replace_hardlinked {
                             next_dst = next_entry(&mut walker);
                             true
                         } else if same_type || opts.delete {
